@@ -12,6 +12,13 @@ structure Line where
   contents : String
   deriving Repr, DecidableEq, Inhabited
 
+/-- How a pass can fail.  Messages are not modelled; only the class and the line. -/
+inductive Err where
+  | asm (line : Line)              -- AssemblerError(message, line)
+  | internal (pyType : String)     -- any other Python exception that escapes (ValueError, KeyError, ...)
+  | unsupported (why : String)     -- the input is outside the modelled subset; never compared
+  deriving Repr, DecidableEq, Inhabited
+
 /-- `Expr` subclasses (asm.py:1120-1262).  `value` is what `resolve_immediates` stores in the
     `imm` field (a plain int). -/
 inductive Imm where
